@@ -175,6 +175,18 @@ def rule_r5(rep, program: Program):
         for attr, call in user_function_attrs(k).items():
             fn = norm(call.func)
             args = [norm(a) for a in call.args]
+            if call.keywords and fn in ("autodiff_fallback", "wrap_function"):
+                # keyword arguments placed by the callee's signature
+                callee = next((m.functions[fn] for m in program.modules.values() if fn in m.functions and m.name.startswith("mici.autodiff")), None)
+                if callee is not None:
+                    ps = callee.params
+                    slots = dict(zip(ps, args))
+                    slots.update({kw.arg: norm(kw.value) for kw in call.keywords if kw.arg})
+                    args = []
+                    for p_ in ps:
+                        if p_ not in slots:
+                            break
+                        args.append(slots[p_])
             key = f"{k.name}:{attr}"
             ok = bool(args) and args[0] == attr[1:]
             if ok and fn == "autodiff_fallback":
